@@ -42,12 +42,12 @@ typedef const struct rrulsp_s *rrulsp_t;
 
 #include "evrrul.c"
 
-/* make_enum by contract (its loops are iterator walks like the mask loops):
- * between 1 and 24/60/60 entries */
+/* make_enum by contract (discharged by C09.make_enum): between 1 and
+ * 24/60/61 entries */
 static int make_enum(struct enum_s *restrict tgt, echs_instant_t proto, rrulsp_t rr)
 __CPROVER_requires(__CPROVER_is_fresh(tgt, sizeof(*tgt)))
 __CPROVER_assigns(__CPROVER_object_whole(tgt))
-__CPROVER_ensures(1U <= tgt->nH && tgt->nH <= 24U && 1U <= tgt->nM && tgt->nM <= 60U && 1U <= tgt->nS && tgt->nS <= 60U);
+__CPROVER_ensures(1U <= tgt->nH && tgt->nH <= 24U && 1U <= tgt->nM && tgt->nM <= 60U && 1U <= tgt->nS && tgt->nS <= 61U);
 size_t rrul_fill_wly(echs_instant_t *restrict tgt, size_t nti, rrulsp_t rr)
 __CPROVER_assigns(__CPROVER_object_upto(tgt, 2U * GRP_CCH_OFF * sizeof(*tgt)))
 __CPROVER_ensures(__CPROVER_return_value <= nti);
@@ -160,4 +160,60 @@ void h_C09_wly(void)
 		SENTINEL("wly an occurrence");
 	}
 	SENTINEL("wly");
+}
+
+/* HOURLY */
+void h_C09_Hly(void)
+{
+	IN_INSTANT_FIELDS(proto);
+	IN_INSTANT_FIELDS(until);
+	IN_RANGE(size_t, nti, 1, NTI);
+	IN_RANGE(int, count, -1, 1000);
+	IN_RANGE(unsigned, inter, 1, RR_INTER_MAX);
+	IN_RANGE(size_t, k, 0, NTI - 1);
+	ASSUME(I_VALID(proto) && !I_ALLSEC(proto) && proto.ms == 0U);
+	ASSUME(until.u == ~0ULL || I_VALID(until));
+	g_rr.freq = FREQ_HOURLY, g_rr.scale = SCALE_GREGORIAN;
+	g_rr.count = count, g_rr.inter = inter, g_rr.until = until;
+	H_SETS();
+	ASSUME(RR_WF(&g_rr) && WF_383(&g_rr.doy));
+	g_tgt[0] = proto;
+	verif_j = k, verif_k = k;
+	size_t r = rrul_fill_Hly(g_tgt, nti, &g_rr);
+	ASSERT(r <= nti, "rrul_fill_Hly: never returns more than asked for");
+	ASSERT(count < 0 || r <= (size_t)count, "rrul_fill_Hly: never more than COUNT");
+	if (k < r) {
+		ASSERT(!echs_instant_lt_p(g_tgt[k], proto), "rrul_fill_Hly: no occurrence before DTSTART");
+		ASSERT(!echs_instant_lt_p(until, g_tgt[k]), "rrul_fill_Hly: no occurrence after UNTIL");
+		SENTINEL("Hly an occurrence");
+	}
+	SENTINEL("Hly");
+}
+
+/* MINUTELY */
+void h_C09_Mly(void)
+{
+	IN_INSTANT_FIELDS(proto);
+	IN_INSTANT_FIELDS(until);
+	IN_RANGE(size_t, nti, 1, NTI);
+	IN_RANGE(int, count, -1, 1000);
+	IN_RANGE(unsigned, inter, 1, RR_INTER_MAX);
+	IN_RANGE(size_t, k, 0, NTI - 1);
+	ASSUME(I_VALID(proto) && !I_ALLSEC(proto) && proto.ms == 0U);
+	ASSUME(until.u == ~0ULL || I_VALID(until));
+	g_rr.freq = FREQ_MINUTELY, g_rr.scale = SCALE_GREGORIAN;
+	g_rr.count = count, g_rr.inter = inter, g_rr.until = until;
+	H_SETS();
+	ASSUME(RR_WF(&g_rr));
+	g_tgt[0] = proto;
+	verif_j = k, verif_k = k;
+	size_t r = rrul_fill_Mly(g_tgt, nti, &g_rr);
+	ASSERT(r <= nti, "rrul_fill_Mly: never returns more than asked for");
+	ASSERT(count < 0 || r <= (size_t)count, "rrul_fill_Mly: never more than COUNT");
+	if (k < r) {
+		ASSERT(!echs_instant_lt_p(g_tgt[k], proto), "rrul_fill_Mly: no occurrence before DTSTART");
+		ASSERT(!echs_instant_lt_p(until, g_tgt[k]), "rrul_fill_Mly: no occurrence after UNTIL");
+		SENTINEL("Mly an occurrence");
+	}
+	SENTINEL("Mly");
 }
